@@ -158,7 +158,10 @@ func Groups(quick bool) []group {
 		"dag-sub-chain":  {Mode: gprog.MDag, Nodes: []gprog.Node{N("a", subFan(gprog.MDag)), {Key: "b", Kind: gprog.KLambda}}, Edges: E("start>a", "a>b", "b>end")},
 		"wf-sub":         {Mode: gprog.MWorkflow, Nodes: []gprog.Node{N("a", subLinear(gprog.MWorkflow)), {Key: "b", Kind: gprog.KLambda}}, Edges: E("start>a", "start>b", "a>end", "b>end")},
 		"wf-sub-chain":   {Mode: gprog.MWorkflow, Nodes: []gprog.Node{N("a", subLinear(gprog.MWorkflow)), {Key: "b", Kind: gprog.KLambda}}, Edges: E("start>a", "a>b", "b>end")},
-		"sub-in-sub":     {Mode: gprog.MPregel, Nodes: []gprog.Node{N("a", &gprog.Prog{Mode: gprog.MPregel, Nodes: []gprog.Node{N("m", subLinear(gprog.MPregel))}, Edges: E("start>m", "m>end")})}, Edges: E("start>a", "a>end")},
+		// depth 3 with the cycle on the MIDDLE level: the graph that re-executes its sub-graph node is itself resumed as a
+		// sub-graph (from the checkpoint in the context, not from the store)
+		"cycle-in-sub-thru-sub": {Mode: gprog.MPregel, Nodes: []gprog.Node{N("a", &gprog.Prog{Mode: gprog.MPregel, MaxSteps: 4, Nodes: []gprog.Node{N("m", subLinear(gprog.MPregel))}, Edges: E("start>m"), Branches: []gprog.Branch{{From: "m", Targets: []string{"m", "end"}}}})}, Edges: E("start>a", "a>end")},
+		"sub-in-sub":            {Mode: gprog.MPregel, Nodes: []gprog.Node{N("a", &gprog.Prog{Mode: gprog.MPregel, Nodes: []gprog.Node{N("m", subLinear(gprog.MPregel))}, Edges: E("start>m", "m>end")})}, Edges: E("start>a", "a>end")},
 	}
 	for _, nk := range sortedKeys(nested) {
 		p := nested[nk]
@@ -306,7 +309,7 @@ func features(t *Trace) (cycleThroughSub bool, innerInts bool, beforeAfterStart 
 // Main is the entry point of the C05 and C06 check binaries.
 func Main(prop string) {
 	c := harness.Init(prop)
-	c.Res.Rule = "history = program (all small flat shapes in Pregel / all-predecessor mode - the Workflow-mode histories are run by the Engine-S part -; curated nested graphs incl. cycles through a sub-graph node and a sub-graph in a sub-graph; nodes that ask for interrupt-and-rerun) x every set of <=2 interrupt-before/after points per nesting level x every sequence of branch outcomes x resume paradigm pattern (all Invoke / all Stream / alternating) x with/without checkpoint id x with/without state modifier; plus typed histories: 11 curated graphs over {int, string, map[string]any} whose input and output types differ (pass-throughs typed from either side, keyed nodes, START fan-in, a nested graph) x every set of <= 2 interrupt points per level x the paradigm patterns, judged against the uninterrupted run of the same graph; every history is executed call by call on the implementation through a byte-only in-memory store until the run completes. Non-trivial = history with >= 1 interrupt actually taken; distinct = distinct (program, points, script, pattern)."
+	c.Res.Rule = "history = program (all small flat shapes in Pregel / all-predecessor mode - the Workflow-mode histories are run by the Engine-S part -; curated nested graphs incl. cycles through a sub-graph node, a sub-graph in a sub-graph and a cycle through a sub-graph node INSIDE a sub-graph (depth 3); nodes that ask for interrupt-and-rerun) x every set of <=2 interrupt-before/after points per nesting level x every sequence of branch outcomes x resume paradigm pattern (all Invoke / all Stream / alternating) x with/without checkpoint id x with/without state modifier; plus typed histories: 11 curated graphs over {int, string, map[string]any} whose input and output types differ (pass-throughs typed from either side, keyed nodes, START fan-in, a nested graph) x every set of <= 2 interrupt points per level x the paradigm patterns, judged against the uninterrupted run of the same graph; every history is executed call by call on the implementation through a byte-only in-memory store until the run completes. Non-trivial = history with >= 1 interrupt actually taken; distinct = distinct (program, points, script, pattern)."
 	c.Res.Assumptions = []string{
 		"deterministic node functions; nodes that ask for a re-run rebuild their input from graph state through a state pre-handler (as the statement presupposes)",
 		"histories whose uninterrupted model run fails (step limit, merge conflict) are only required to terminate",
